@@ -276,6 +276,11 @@ func (h *Hub) sendWSCloseMessage(conn *websocket.Conn) {
 
 // coordinate connection initiation attempts to a remove service
 func (h *Hub) coordinateConnectionInitations(ski string, entry *api.MdnsEntry) {
+	// no new connections after a shutdown
+	if h.checkIsShutdown() {
+		return
+	}
+
 	if h.isConnectionAttemptRunning(ski) {
 		return
 	}
@@ -306,6 +311,11 @@ func (h *Hub) coordinateConnectionInitations(ski string, entry *api.MdnsEntry) {
 // when initating a pairing process
 func (h *Hub) prepareConnectionInitation(ski string, counter int, entry *api.MdnsEntry) {
 	h.setConnectionAttemptRunning(ski, false)
+
+	// the hub may have been shut down while this attempt was delayed
+	if h.checkIsShutdown() {
+		return
+	}
 
 	// check if the current counter is still the same, otherwise this counter is irrelevant
 	currentCounter, exists := h.getCurrentConnectionAttemptCounter(ski)
